@@ -66,6 +66,7 @@ type Contract struct {
 	Cases      []caseSpec
 	Shared     bool
 	SplitRet   bool
+	SplitPaths bool
 
 	obj     *types.Func
 	harness *ssa.Function
@@ -203,6 +204,9 @@ func parseContractFile(path string, pkgPath string) ([]*Contract, []string, erro
 			}
 			cur.Cases = append(cur.Cases, cs)
 		case "split":
+			if strings.Contains(rest, "path") {
+				cur.SplitPaths = true
+			}
 			cur.SplitRet = true
 		case "panics":
 			cur.Panics = rest
